@@ -21,6 +21,7 @@ type monitor struct {
 	onExit     func(fr *frame, fn *ssa.Function)
 	onStore    func(fr *frame, addr *value)
 	onMapWrite func(fr *frame, m *omap)
+	onMapRead  func(fr *frame, m *omap)
 }
 
 type Config struct {
@@ -98,6 +99,7 @@ func NewMachine(prog *ssa.Program, cfg Config) (*Machine, error) {
 		}
 	}
 	i.initAllow = func(p string) bool { return cfg.UnderTest(p) || cfg.LibInit(p) }
+	i.underTest = cfg.UnderTest
 	m.i = i
 	for _, pkg := range prog.AllPackages() {
 		m.allPkgs = append(m.allPkgs, pkg)
@@ -616,12 +618,173 @@ func installMonitor(i *interpreter, kind string) {
 			},
 			onStore:    func(fr *frame, addr *value) {},
 			onMapWrite: func(fr *frame, m *omap) {},
+			onMapRead:  func(fr *frame, m *omap) {},
 		}
+	case "ownership":
+		installOwnership(i)
 	default:
 		unsupported("unknown monitor %q", kind)
 	}
 }
 
+// installOwnership enforces the discipline that makes concurrent Parse calls
+// independent (C18): from now on
+//  1. no Store / map update / delete may target an object reachable from a
+//     package-level variable of the packages under test (those are shared by
+//     all goroutines; they may only be read);
+//  2. a map handed to sync.Pool.Put must be empty and must not be touched again
+//     by this call until Pool.Get returns it;
+//  3. Pool.Get returns nondeterministically a fresh map or ANY map that was
+//     ever Put (another goroutine may have put it): results must not depend
+//     on the choice.
+func installOwnership(i *interpreter) {
+	shared := map[*value]bool{}
+	sharedMaps := map[*omap]bool{}
+	seenSlices := map[*value]bool{}
+	var walk func(v value, depth int)
+	walk = func(v value, depth int) {
+		if depth > 200 {
+			return
+		}
+		switch x := v.(type) {
+		case *value:
+			if x == nil || shared[x] {
+				return
+			}
+			shared[x] = true
+			walk(*x, depth+1)
+		case structure:
+			for k := range x {
+				shared[&x[k]] = true
+				walk(x[k], depth+1)
+			}
+		case array:
+			for k := range x {
+				shared[&x[k]] = true
+				walk(x[k], depth+1)
+			}
+		case []value:
+			if len(x) == 0 || seenSlices[&x[0]] {
+				return
+			}
+			seenSlices[&x[0]] = true
+			for k := range x {
+				shared[&x[k]] = true
+				walk(x[k], depth+1)
+			}
+		case iface:
+			if x.t != nil {
+				walk(x.v, depth+1)
+			}
+		case *omap:
+			if x == nil || sharedMaps[x] {
+				return
+			}
+			sharedMaps[x] = true
+			for _, e := range x.entries {
+				if e.alive {
+					walk(e.key, depth+1)
+					walk(e.val, depth+1)
+				}
+			}
+		case *closure:
+			for _, e := range x.Env {
+				walk(e, depth+1)
+			}
+		case tuple:
+			for _, e := range x {
+				walk(e, depth+1)
+			}
+		}
+	}
+	for g, cell := range i.globals {
+		if g.Pkg != nil && i.underTest != nil && i.underTest(g.Pkg.Pkg.Path()) {
+			// the variable itself and everything reachable from it
+			shared[cell] = true
+			walk(*cell, 0)
+		}
+	}
+	released := map[*omap]bool{}
+	ex := i.ex
+	fail := func(fr *frame, msg string) {
+		ex.addCex("C18: "+msg+" (in "+fr.fn.String()+")", ex.model())
+		panic(pathEnd{"assertion failed"})
+	}
+	i.monitor = &monitor{
+		onEnter: func(fr *frame, fn *ssa.Function, args []value) {},
+		onExit:  func(fr *frame, fn *ssa.Function) {},
+		onStore: func(fr *frame, addr *value) {
+			if shared[addr] {
+				fail(fr, "a package-level object is written during Parse")
+			}
+		},
+		onMapWrite: func(fr *frame, m *omap) {
+			if sharedMaps[m] {
+				fail(fr, "a package-level map is written during Parse")
+			}
+			if released[m] {
+				fail(fr, "a state map is written after it was returned to the pool")
+			}
+		},
+		onMapRead: func(fr *frame, m *omap) {
+			if released[m] {
+				fail(fr, "a state map is read after it was returned to the pool")
+			}
+		},
+	}
+	ex.poolPutHook = func(fr *frame, pool *value, v value) {
+		if it, ok := v.(iface); ok {
+			if m, ok := it.v.(*omap); ok && m != nil {
+				if m.len() != 0 {
+					fail(fr, "a non-empty map is returned to the pool")
+				}
+				released[m] = true
+			}
+		}
+	}
+	ex.poolGotHook = func(v value) {
+		if it, ok := v.(iface); ok {
+			if m, ok := it.v.(*omap); ok {
+				delete(released, m)
+			}
+		}
+	}
+	// Deviations from the LIFO model are delay-bounded (at most poolBudget Get
+	// calls per path pick another pooled map or a fresh one): pooled maps are
+	// empty and indistinguishable when discipline 2 holds, which is checked on
+	// every path.
+	poolBudget := 1
+	ex.poolHook = func(fr *frame, pool *value) (value, bool) {
+		cands := fr.i.pools[pool]
+		if poolBudget == 0 || len(cands) == 0 {
+			return nil, false // LIFO model / New
+		}
+		// 0: LIFO top (default), 1: a fresh map although the pool is not empty, 2: the oldest pooled map
+		nalt := 2
+		if len(cands) > 1 {
+			nalt = 3
+		}
+		c := ex.ChooseNamed("poolget", nalt)
+		if c == 0 {
+			return nil, false
+		}
+		poolBudget--
+		if c == 1 {
+			st := (*pool).(structure)
+			newFn := st[len(st)-1]
+			return call(fr.i, fr, token.NoPos, newFn, nil), true
+		}
+		k := 0
+		v := cands[k]
+		fr.i.pools[pool] = append(append([]value{}, cands[:k]...), cands[k+1:]...)
+		if it, ok := v.(iface); ok {
+			if m, ok := it.v.(*omap); ok {
+				delete(released, m)
+			}
+		}
+		return v, true
+	}
+}
 
 type skipStub struct{}
 
